@@ -20,7 +20,7 @@ func main() {
 		}
 		return
 	}
-	needDriver := map[string]bool{"c11": true}
+	needDriver := map[string]bool{"c11": true, "c12": true}
 	var d *hx.Driver
 	if needDriver[os.Args[1]] {
 		var err error
@@ -35,6 +35,8 @@ func main() {
 	switch os.Args[1] {
 	case "c11":
 		rep = hx.RunC11(d)
+	case "c12":
+		rep = hx.RunC12(d)
 	default:
 		fmt.Fprintln(os.Stderr, "unknown component", os.Args[1])
 		os.Exit(2)
